@@ -3,7 +3,7 @@
    header), hence for every corruption, truncation, extension and surrounding traffic. *)
 From PM.theories Require Import Base Expr Struct FrBaseA Lrc FrTcp FrAscii FrSpecA.
 From PM.Generated Require Import GenFramerA.
-From PM.proofs Require Import FrA_lrc_proofs FrA_tcp_proofs FrA_ascii_proofs.
+From PM.proofs Require Import FrA_lrc_proofs FrA_tcp_proofs FrA_ascii_proofs FrA_ascii_gate_proofs FrA_tcp_gate_proofs.
 Open Scope list_scope.
 Open Scope Z_scope.
 
@@ -31,6 +31,26 @@ Theorem C07_gate_tcp : forall st st1 : tstate,
   t_buf st = firstn 7 (t_buf st) ++ t_getframe tcp st1 ++ t_buf (t_advance tcp st1).
 Proof. exact tcp_check_gate. Qed.
 Print Assumptions C07_gate_tcp.
+
+(* ---- LOOP LEVEL: every element of the delivery list of a receive call --------------------------
+   [ascii_justified buf d]: buf = pre ++ ':' D c1 c2 CR LF rest, D and c1 c2 hex, the byte encoded by
+   c1 c2 is the specification LRC of the bytes encoded by D, and those bytes are unit :: PDU of d
+   (tid = pid = 0).  Degenerate span ':00 CR LF' (no bytes): unit 0, empty PDU. *)
+Theorem C07_deliveries_ascii : forall (dec : bytes -> dres) (c : cfg) (st : astate) (chunk : bytes) st' ds o,
+  a_recv base lrc ascii dec c st chunk = (st', ds, o) ->
+  Forall (ascii_justified (a_buf st ++ chunk)) ds.
+Proof. exact ascii_recv_gate. Qed.
+Print Assumptions C07_deliveries_ascii.
+
+(* TCP: the statement forced by the open finding — every delivery is justified by a complete spec
+   MBAP ADU (length field = |PDU| + 1 >= 2) lying in buffer ++ chunk, OR it is the product of the
+   _process(error=True) branch: its "PDU" is the raw remainder (1..7 bytes) of the buffer *)
+Theorem C07_deliveries_tcp_partial : forall (dec : bytes -> dres) (c : cfg) (st : tstate) (chunk : bytes) st' ds o,
+  wfb (t_buf st) = true -> wfb chunk = true ->
+  t_recv base tcp dec c st chunk = (st', ds, o) ->
+  Forall (fun d => tcp_justified (t_buf st ++ chunk) d \/ tcp_errpath (t_buf st ++ chunk) d) ds.
+Proof. exact tcp_recv_gate. Qed.
+Print Assumptions C07_deliveries_tcp_partial.
 
 (* the gate does not cover the _process(error=True) branch of the socket framer: open finding *)
 Theorem C07_tcp_errpath_refuted : exists dec c chunk d,
